@@ -256,7 +256,9 @@ func mapDynamoToTypesItem(item dynamodbtypes.AttributeValue) *types.Item {
 
 	itemBOOL, ok := item.(*dynamodbtypes.AttributeValueMemberBOOL)
 	if ok {
-		return &types.Item{BOOL: &itemBOOL.Value}
+		value := itemBOOL.Value
+
+		return &types.Item{BOOL: &value}
 	}
 
 	itemBS, ok := item.(*dynamodbtypes.AttributeValueMemberBS)
